@@ -2,8 +2,8 @@ SPECIFICATION MCSpec
 VIEW view
 INVARIANTS DryNoChange ThrottleOk NotBlocked ReadSameMC
 CONSTANTS
- Gated = {"tag.delete", "m:delete", "manifest.put", "m:put", "blob.put", "b:put", "image.importTar", "image.copy", "image.copy+dt", "image.copy+fr"}
- RelOnErr = {"image.config", "m:config", "image.importTar", "image.exportTar", "image.copy", "image.copy+dt", "image.copy+fr"}
+ Ungated = {}
+ LeakOnErr = {}
  StubReads = {}
  NS = 1
  MaxLen = 2
